@@ -27,7 +27,11 @@ def decision_st():
         # the handler disconnects the client it is asked about, and returns
         st.just({'d': 'kick'}),
         st.fixed_dictionaries({'d': st.just('raise'),
-                               'args': st.lists(val, max_size=4)}))
+                               'args': st.lists(val, max_size=4)}),
+        # a refusal whose arguments cannot be put into a packet (bytes, a
+        # set): an application error, but still a refusal
+        st.fixed_dictionaries({'d': st.just('raise_bad'),
+                               'kind': st.sampled_from(['bytes', 'set'])}))
 
 
 def ops_st(n_ops):
@@ -101,6 +105,9 @@ def build(case, w, log):
             return False
         if d['d'] == 'kick':
             return KICK if kick_ok(case) else None
+        if d['d'] == 'raise_bad':
+            raise socketio.exceptions.ConnectionRefusedError(
+                'denied', b'\x01' if d['kind'] == 'bytes' else {1, 2})
         raise socketio.exceptions.ConnectionRefusedError(*d['args'])
 
     def on_connect(ns, sid, environ, auth=NO):
@@ -231,8 +238,9 @@ RULE = ('Model-based stateful testing over configurations always_connect x '
         'unserved and repeated namespaces -, client DISCONNECT, '
         'server.disconnect, transport loss, broadcasts and to-sid emits, with '
         'generated connect decisions (accept None/True, return False, raise '
-        'ConnectionRefusedError with 0-4 JSON args, disconnect the client '
-        'itself). Oracle: lifecycle model '
+        'ConnectionRefusedError with 0-4 JSON args or with arguments that '
+        'no packet can carry, disconnect the client itself). Oracle: '
+        'lifecycle model '
         '(handler once per admitted request with the auth payload, answer '
         'frames exactly as documented, fresh sids, no membership after a '
         'refusal, exactly one disconnect invocation per accepted connection '
@@ -245,7 +253,7 @@ ASSUMPTIONS = [
     'carries an object; a bare number is ambiguous in the v5 header, see C01)',
     'falsy auth and absent auth are the same observation',
     '2-argument connect handlers are only paired with absent/falsy auth',
-    'refusal arguments are JSON values without bytes',
+    'refusal arguments are JSON values without bytes, or (judged by membership only) values that cannot be encoded',
     'threaded server: sequential executions only (thread races are C20)',
 ]
 BUDGET = {'quick': 8000, 'thorough': 80000}
@@ -417,6 +425,23 @@ def _run(case, w):
                 hsid = None
             if d['d'] == 'kick' and not kick_ok(case):
                 d = {'d': 'accept'}
+            if d['d'] == 'raise_bad':
+                # whatever the client could be told, it was refused: no
+                # membership is left
+                w.h.swallowed[:] = []
+                if any(p['nsp'] != ns for p in pkts) or [
+                        p['type'] for p in pkts] not in (
+                            [], [wire.CONNECT], [wire.CONNECT_ERROR],
+                            [wire.CONNECT, wire.DISCONNECT]):
+                    raise Violation('refusal-frames', repr(pkts))
+                if ci is not None:
+                    w.clients[ci]['alive'] = False
+                    w.clients[ci]['refused'] = True
+                refused_sids.append((hsid, ns, t))
+                check_dead(hsid, ns, 'refused with unencodable arguments,')
+                labels['refusal_that_cannot_be_encoded'] = True
+                labels['nontrivial'] = True
+                continue
             if d['d'] == 'kick':
                 # the handler ended the connection itself: a DISCONNECT is
                 # the server's last word (after the CONNECT it had already
